@@ -55,4 +55,17 @@ PROPS = {
         level_note='Regime models are regenerated from the Python each run; the table and graded models are hand-written and compared bit for bit with '
                    'Slurry.generate_curves (all keys, all indices) and Erhg_graded(get_dict=True) on generated objects. Theorems over exact reals.',
     ),
+    'C18': dict(
+        own_files=['Lemmas/LC18.v', 'Lemmas/LC18b.v', 'Props/C18.v'],
+        corr=[dict(script='corr_interp.py', n=150, n_thorough=3000)],
+        search='C18.py', budget_quick=300, budget_thorough=10000,
+        partial=[],
+        level_text='Proof: for every table with strictly increasing keys (any length, sign, spacing) the lookup model returns the stored value at a key, '
+                   'the straight line through the two neighbours strictly inside a segment (and that lies between the neighbouring values), extends an '
+                   'end segment exactly when extrapolation is on or the key passes the tolerance test (read as "within 0.1 %" for positive end keys) and '
+                   'is IndexError otherwise; assignment is refused. The shipped tables (regenerated from DHLLDV_constants.py) have increasing keys and '
+                   'positive entries, and kinematic viscosity is strictly decreasing node to node and along every segment.',
+        level_note='Num/Interp.v is hand-written and compared bit for bit (values and IndexError) with the real interpDict on random tables '
+                   '(shuffled insertion order, adjacent-float keys, both flags) and on every shipped table at nodes and mid-points.',
+    ),
 }
